@@ -56,7 +56,7 @@ def U32MAX : Nat := 4294967295
 /-! ## generated readers the COLR helpers call (byte-level view) -/
 
 /-- big-endian scalar of `n` bytes at `p`; only used where the reader validated `p + n ≤ len` -/
-def be (d : List Nat) (p n : Nat) : Nat := beAt d p n
+def be (d : List Nat) (p n : Nat) : Nat := HandRead.beAt d p n
 
 /-- `Colr::read` (generated): `version`, the v0 header (14 bytes) and for `version ≥ 1`
 (`version.compatible(1u16)`) the five v1 offsets (34 bytes); the marker fields are read back by the
@@ -506,25 +506,33 @@ def clipClosure (c : Ctx) (start end_ : Nat) (box : Option (Option Nat)) : Ctx :
       | some base => c.addVars base 4
     else c
 
+/-- the base-glyph loop of `Colr::v1_closure`: `for paint_record in base_glyph_records`,
+`glyph_set.contains(gid)`, `paint_record.paint(..)` `Ok` → `c.dispatch(&paint)` (fuel 65 for the 64
+nesting levels) -/
+def v1Roots (G : Graph) (glyphSet : List Nat) : Ctx :=
+  match G.baseList with
+  | none => {}
+  | some recs =>
+    dispatchAll (dispatch G 65) {}
+      (recs.filterMap (fun (r : Nat × Option Nat) => if glyphSet.contains r.1 then r.2 else none))
+
+/-- the clip loop: `for clip_record in clip_list.clips() { clip_record.v1_closure(&mut c, &clip_list) }` -/
+def v1Clips (c : Ctx) (cl : List (Nat × Nat × Option (Option Nat))) : Ctx :=
+  cl.foldl (fun c (r : Nat × Nat × Option (Option Nat)) => clipClosure c r.1 r.2.1 r.2.2) c
+
 /-- `Colr::v1_closure(glyph_set, layer_indices, palette_indices, variation_indices)` for a table of
-`version ≥ 1`: the base-glyph loop (`glyph_set.contains(gid)`, `paint_record.paint(..)` `Ok`), the union
-into `glyph_set`, then the clip loop with `c.glyph_set ∪ glyph_set`.  `clips`: `none` = `clip_list()` is
-not `Some(Ok(_))`.  Result: the context (its `glyphs` = `c.glyph_set` before the clip phase merged with
-the input set) and the final `glyph_set`. -/
+`version ≥ 1`: the base-glyph loop, `glyph_set.union(&c.glyph_set)` (only when the base glyph list
+resolves), then — when `clip_list()` is `Some(Ok(_))` (`clips ≠ none`) — `c.glyph_set.union(glyph_set)`
+and the clip loop.  Result: the context and the final `glyph_set`. -/
 def v1Closure (G : Graph) (clips : Option (List (Nat × Nat × Option (Option Nat)))) (glyphSet : List Nat) :
     Ctx × List Nat :=
-  let c0 : Ctx := {}
-  let (c, gs) := match G.baseList with
-    | none => (c0, glyphSet)
-    | some recs =>
-      let roots := recs.filterMap (fun (r : Nat × Option Nat) => if glyphSet.contains r.1 then r.2 else none)
-      let c := dispatchAll (dispatch G 65) c0 roots
-      (c, glyphSet ++ c.glyphs)
+  let c := v1Roots G glyphSet
+  let gs := match G.baseList with
+    | none => glyphSet
+    | some _ => glyphSet ++ c.glyphs
   match clips with
   | none => (c, gs)
-  | some cl =>
-    let c := { c with glyphs := c.glyphs ++ gs }
-    (cl.foldl (fun c (r : Nat × Nat × Option (Option Nat)) => clipClosure c r.1 r.2.1 r.2.2) c, gs)
+  | some cl => (v1Clips { c with glyphs := c.glyphs ++ gs } cl, gs)
 
 /-! ### the paint graph of a COLR table (byte-level view of the generated `Paint*` getters) -/
 
